@@ -1,4 +1,7 @@
 import Goyang.Lemmas.ErrorSort
+import Goyang.Lemmas.OrderIndep
+import Goyang.Lemmas.Cli
+import Goyang.Model.Pipeline
 /-
 Property C05: same sources and options give the same result, whatever the load order.
 
@@ -113,5 +116,133 @@ theorem less_mid_not_total :
     let b : Msg := [116, 44, 32, 47, 98, 58, 48, 50]
     a ≠ b ∧ lessMid a b = false ∧ lessMid b a = false ∧ (less a b = true ∨ less b a = true) := by
   decide
+
+/-! ## Part 2: the places where the resolver still walks a map
+
+After the repairs every map walk of `Modules.Process` whose order could reach the result goes
+over sorted keys (linking, conversion, the augment loop, deviations; identities and typedefs in
+their layers), and the model follows those fixed orders.  What is left are walks whose order
+provably cannot matter; in the model a Go map is the list of its values in *some* order, and
+"any map order" is "any permutation of that list". -/
+
+open Goyang.Model in
+/-- `Entry.merge` (`for k, v := range oe.Dir`): walking `oe.Dir` in another order gives the same
+children (as a set), the same multiset of recorded errors, and the same everything else.  The
+keys of a map are unique: `hnd`. -/
+theorem merge_perm (e : Entry) (ns : Option String) (od : EData) {c₁ c₂ : List Entry} (oi oo : List Entry)
+    (h : c₁.Perm c₂) (hnd : (c₁.map Entry.name).Nodup) :
+    (e.merge ns (.mk od c₁ oi oo)).dir.Perm (e.merge ns (.mk od c₂ oi oo)).dir ∧
+    (e.merge ns (.mk od c₁ oi oo)).d.errors.Perm (e.merge ns (.mk od c₂ oi oo)).d.errors ∧
+    { (e.merge ns (.mk od c₁ oi oo)).d with errors := [] } = { (e.merge ns (.mk od c₂ oi oo)).d with errors := [] } ∧
+    (e.merge ns (.mk od c₁ oi oo)).inp = (e.merge ns (.mk od c₂ oi oo)).inp ∧
+    (e.merge ns (.mk od c₁ oi oo)).out = (e.merge ns (.mk od c₂ oi oo)).out :=
+  Lemmas.OrderIndep.merge_perm e ns od oi oo h hnd
+
+open Goyang.Model in
+/-- `checkErrors` / `importErrors` (`for _, e := range e.Dir`): the errors of a tree are collected
+as a multiset, whatever the order of the walk. -/
+theorem allErrors_perm (d : EData) {c₁ c₂ : List Entry} (i o : List Entry) (h : c₁.Perm c₂) :
+    (Entry.allErrors (.mk d c₁ i o)).Perm (Entry.allErrors (.mk d c₂ i o)) :=
+  Lemmas.OrderIndep.allErrors_perm d i o h
+
+open Goyang.Model in
+/-- `FixChoice` (two `range e.Dir` loops): another order of the walk gives the same children (as
+a set) and changes nothing else; the new child is a function of the old child alone. -/
+theorem fixChoice_perm (d : EData) {c₁ c₂ : List Entry} (i o : List Entry) (h : c₁.Perm c₂) :
+    (fixChoice (.mk d c₁ i o)).dir.Perm (fixChoice (.mk d c₂ i o)).dir ∧
+    (fixChoice (.mk d c₁ i o)).d = (fixChoice (.mk d c₂ i o)).d ∧
+    (fixChoice (.mk d c₁ i o)).inp = (fixChoice (.mk d c₂ i o)).inp ∧
+    (fixChoice (.mk d c₁ i o)).out = (fixChoice (.mk d c₂ i o)).out :=
+  Lemmas.OrderIndep.fixChoice_perm d i o h
+
+open Goyang.Model in
+theorem fixChoice_children (d : EData) (c i o : List Entry) :
+    (fixChoice (.mk d c i o)).dir =
+      c.map fun ce => if d.kind == .choice && d.errors.isEmpty then Lemmas.OrderIndep.wrapOne (fixChoice ce) else fixChoice ce :=
+  Lemmas.OrderIndep.fixChoice_children d c i o
+
+open Goyang.Model in
+/-- The canonical error set the model's outcome carries (and both sides of the correspondence
+print) is a function of the multiset of collected errors. -/
+theorem canonErrs_perm_invariant {l₁ l₂ : List Err} (h : l₁.Perm l₂) : canonErrs l₁ = canonErrs l₂ :=
+  Lemmas.OrderIndep.canonErrs_perm_invariant h
+
+open Goyang.Model in
+/-- Putting the last two together: the errors `Process` reports after the augment stage do not
+depend on the order in which the children of any one node were walked. -/
+theorem sweep_perm_invariant (d : EData) {c₁ c₂ : List Entry} (i o : List Entry) (h : c₁.Perm c₂) (more : List Err) :
+    canonErrs (Entry.allErrors (.mk d c₁ i o) ++ more) = canonErrs (Entry.allErrors (.mk d c₂ i o) ++ more) :=
+  canonErrs_perm_invariant (List.Perm.append_right _ (allErrors_perm d i o h))
+
+-- non-vacuity: two children, one of them colliding with a child of the target
+section
+open Goyang.Model
+private def leafE (n : String) (errs : List Err := []) : Entry := .mk { name := n, kind := .leaf, hasDir := false, errors := errs } [] [] []
+private def tgt : Entry := .mk { name := "c" } [leafE "x"] [] []
+example : (([leafE "z", leafE "x"].map Entry.name).Nodup) ∧ [leafE "z", leafE "x"].Perm [leafE "x", leafE "z"] := by
+  refine ⟨by decide, List.Perm.swap _ _ _⟩
+example : ((tgt.merge (some "urn:a") (.mk {} [leafE "z", leafE "x"] [] [])).dir.map Entry.name,
+           (tgt.merge (some "urn:a") (.mk {} [leafE "z", leafE "x"] [] [])).d.errors.length) = (["x", "z"], 1) := by decide
+example : ((tgt.merge (some "urn:a") (.mk {} [leafE "x", leafE "z"] [] [])).dir.map Entry.name,
+           (tgt.merge (some "urn:a") (.mk {} [leafE "x", leafE "z"] [] [])).d.errors.length) = (["x", "z"], 1) := by decide
+example : canonErrs [Err.bare "b", { file := "f", line := 10, col := 1, cls := "a" }, { file := "f", line := 2, col := 1, cls := "a" }, Err.bare "b"] =
+    [Err.bare "b", { file := "f", line := 2, col := 1, cls := "a" }, { file := "f", line := 10, col := 1, cls := "a" }] := by decide
+end
+
+/-! ### load order
+
+Full strength: processing does not depend on the order in which the sources were loaded.  This
+is stated here as a proposition, *not* proved.  The registry half is `Props.C13.registry_perm_invariant(_stmt)`
+(every key of `ms.Modules` / `ms.SubModules` is bound to the same statement in every load order).
+What is missing is the other half: that `processAll` reads the registry only through those
+bindings and the statements — i.e. invariance of `toEntry`, `find`, the augment loop, deviations,
+type and identity resolution under renaming of the load sequence numbers `Mod.seq`, which the
+model uses as module identities (tree ids, `nodeMod`, visited sets).  That is a simulation proof
+through every layer of the resolver model and has not been done.  Until then load-order
+independence of the *model* is checked by the correspondence runner on every generated set (the
+driver is asked for the reversed and a shuffled load order as well), and that of the *code* by
+all or 24 / 200 sampled permutations per set. -/
+open Goyang.Model in
+def ProcessLoadOrderIrrelevant : Prop :=
+  ∀ (opts : Opts) (files₁ files₂ : List SrcFile), files₁.Perm files₂ →
+    (processFiles opts files₁).toOption.map dumpOutcome = (processFiles opts files₂).toOption.map dumpOutcome
+
+/-! ## Part 3: the command's renderings -/
+
+open Goyang.Model.Cli in
+/-- `--format tree` (tree.go `Write`): the rendering of an entry is a function of its `Dir` as a
+set: walking the map in any order (any permutation of the children, whose keys are unique) prints
+the same bytes. -/
+theorem tree_render_deterministic (n : TNode) (inp out : List Tree) {d₁ d₂ : List Tree} (h : d₁.Perm d₂)
+    (hnd : (d₁.map fun c => c.n.name).Nodup) : write (.mk n inp out d₁) = write (.mk n inp out d₂) := by
+  simp only [write]
+  rw [Lemmas.Cli.writeKids_eq_map d₁, Lemmas.Cli.writeKids_eq_map d₂]
+  rw [Lemmas.Cli.sortBy_keyLt_perm (h.map _) (by simpa [List.map_map] using hnd)]
+
+open Goyang.Model.Cli in
+/-- `--format types` (types.go `doTypes`): the set of types is rendered, the renderings are
+sorted, so the output does not depend on the order in which the map `Types` is walked. -/
+theorem types_render_deterministic {τ : Type} (printType : τ → Indent.Bytes) {t₁ t₂ : List τ} (h : t₁.Perm t₂) :
+    doTypes printType t₁ = doTypes printType t₂ := by
+  simp only [doTypes]
+  rw [Lemmas.Cli.sortBy_bytes_perm (h.map _)]
+
+open Goyang.Model.Cli in
+/-- The end of `main`: which entries are printed, and in which order, depends on `ms.Modules`
+only as a set of (key, module name) pairs and on what the bare names are bound to (D51). -/
+theorem select_deterministic {m₁ m₂ : List (Indent.Bytes × Indent.Bytes × Tree)} (bound : Indent.Bytes → Option Tree)
+    (h : ∀ x, x ∈ m₁.map (·.2.1) ↔ x ∈ m₂.map (·.2.1)) : selectEntries m₁ bound = selectEntries m₂ bound := by
+  simp only [selectEntries]
+  rw [Lemmas.Cli.sortBy_eraseDups_ext h]
+
+section
+open Goyang.Model.Cli
+private def lf (k : String) : Tree := .mk { name := str k, shown := str k, hasDir := false, typeName := some (str "string") } [] [] []
+private def top : TNode := { name := str "m", shown := str "m" }
+example : write (.mk top [] [] [lf "z", lf "a", lf "k"]) = write (.mk top [] [] [lf "k", lf "z", lf "a"]) :=
+  tree_render_deterministic top [] [] (by decide) (by decide)
+example : write (.mk top [] [] [lf "z", lf "a"]) = str "rw: m {\n  rw: string a\n  rw: string z\n}\n" := by decide
+example : doTypes (fun (s : String) => str s) ["b;\n", "a;\n"] = str "a;\nb;\n" := by decide
+end
 
 end Goyang.Props.C05
